@@ -1,5 +1,5 @@
 /* Engine B lemma used by c01_attrs: whenever scan_attr accepts at a position, the pieces parse_attributes then measures are well-formed:
-   p = scan_spnl, k = scan_key (k >= 1, followed by '='), v = scan_value (v >= 1: attr_new is never handed an empty value), and
+   p = scan_spnl, k = scan_key (k >= 1, followed by '='), v = scan_value (asked about a blank it answers 0; elsewhere it may be empty only for exotic bytes: attr_new must cope), and
    p + k + 1 + v stays inside the string.  IR of the current scanners.c, arbitrary NUL-terminated buffer. */
 #include "vh.h"
 #ifdef REPLAY
@@ -39,7 +39,9 @@ int main(void) {
 		for (unsigned g = 0; g < N; g++) if (q < IN.len && (BYTE(q) == ' ' || BYTE(q) == '\t')) q++;      /* parse_attributes skips blanks after '=' (the `attr` pattern allows them) */
 		CHECK(q <= IN.len, "the value starts inside the string");
 		uint64_t v = ir_scan_value(base + q);
-		CHECK(v >= 1, "an accepted attribute has a non-empty value (attr_new never sees an empty string)");
+		/* v may be 0: `u=\xC2\xA0b` is accepted by scan_attr (0xA0 counts as a blank for it) while scan_value finds nothing at 0xC2 -- found at 6 bytes;
+		   attr_new copes with an empty value since the F3 repair (`len &&`), and c01_attrs lets the value scanner answer 0 */
+		COVER_OPT(v == 0);
 		CHECK(q + v <= IN.len, "key = value lies inside the string");
 	}
 	COVER(a > 0); COVER(IN.len == N);
